@@ -178,6 +178,40 @@ func init() {
 		})
 		b.P("def deliverExhaustCond : String := %s", leanStr(exhaust))
 
+		// ---- the durability barrier: connector.Service.WaitPersisted = the UNBOUNDED Persister.WaitPendingWrites
+		svc := parse("pkg/connector/service.go")
+		var wpCalls []string
+		ast.Inspect(findFunc(svc, "Service", "WaitPersisted").Body, func(n ast.Node) bool {
+			if c, ok := n.(*ast.CallExpr); ok {
+				wpCalls = append(wpCalls, src2(c.Fun))
+			}
+			return true
+		})
+		b.P("/-- every call made by `Service.WaitPersisted`, in source order -/")
+		b.P("def serviceWaitPersistedCalls : List String := %s", leanStrList(wpCalls))
+		// … and WaitPendingWrites itself: two plain receives on the snapshotted generation, no select / timer
+		wpw := findFunc(per, "Persister", "WaitPendingWrites")
+		var recvs []string
+		wpwSelect := false
+		ast.Inspect(wpw.Body, func(n ast.Node) bool {
+			switch v := n.(type) {
+			case *ast.SelectStmt:
+				wpwSelect = true
+			case *ast.UnaryExpr:
+				if v.Op == token.ARROW {
+					recvs = append(recvs, "<-"+src2(v.X))
+				}
+			case *ast.CallExpr:
+				if f := src2(v.Fun); strings.HasPrefix(f, "time.") || strings.Contains(f, "Context") {
+					wpwSelect = true
+				}
+			}
+			return true
+		})
+		b.P("def waitPendingWritesReceives : List String := %s", leanStrList(recvs))
+		b.P("/-- WaitPendingWrites has no select, timer or context: it returns only when both channels are closed -/")
+		b.P("def waitPendingWritesUnbounded : Bool := %v", !wpwSelect)
+
 		// ---- Persist: bundle threshold comparison; triggerFlush serialisation
 		pe := findFunc(per, "Persister", "Persist")
 		thr := ""
